@@ -53,6 +53,9 @@ pub struct Behaviour {
     pub scheme: Option<Vec<u8>>,
     /// per-connection override of `scheme` (connection i uses entry i, the last entry afterwards)
     pub schemes: Vec<Vec<u8>>,
+    /// Some(n): only the first n keep-alive requests of a connection are answered, then the peer
+    /// stays silent (but keeps reading and keeps the connection open)
+    pub heartbeat_limit: Option<usize>,
 }
 
 #[derive(Default, Debug)]
@@ -150,6 +153,7 @@ async fn serve(tls: &mut tokio_rustls::server::TlsStream<TcpStream>, password: &
     let mut parser = RParser::new();
     let mut buf = vec![0u8; 1 << 16];
     let mut streams: std::collections::HashMap<u32, (Vec<u8>, bool)> = Default::default();
+    let mut heart_seen = 0usize;
     loop {
         let n = tls.read(&mut buf).await?;
         if n == 0 {
@@ -208,7 +212,8 @@ async fn serve(tls: &mut tokio_rustls::server::TlsStream<TcpStream>, password: &
                     streams.remove(&f.sid);
                 }
                 rc::HEART_REQ => {
-                    if beh.heartbeat {
+                    heart_seen += 1;
+                    if beh.heartbeat && beh.heartbeat_limit.is_none_or(|n| heart_seen <= n) {
                         outgoing.push(RFrame::ctl(rc::HEART_RESP, f.sid));
                     }
                 }
